@@ -249,10 +249,10 @@ class Gen:
     def matrix_action(self, depth):
         r = self.rng
         mats = [s for s in self.pop if s['kind'] == 'matrix']
-        if mats and (r.random() < 0.9 or not self.feature('matrix_on_nonmatrix', False)):
+        if mats and (r.random() < 0.9 or not self.feature('matrix_on_nonmatrix', True)):
             spec = r.choice(mats)
             name, h, w = spec['label'], spec['height'], spec['width']
-        elif self.feature('matrix_on_nonmatrix', False):
+        elif self.feature('matrix_on_nonmatrix', True):
             name, h, w = (r.choice(self.light_names() or ['missing'])), 2, 2
         else:
             name, h, w = 'missing', 2, 2
